@@ -39,6 +39,8 @@ structure Globals where
   /-- `os.ReadFile` (`none` = the error return) and `base64.StdEncoding.DecodeString`, as `ReadKeyFromFile` sees them -/
   ReadFile : Str → Option Bytes
   b64dec : Bytes → Option Bytes
+  /-- `os.WriteFile path content perm` as `WriteKeyToFile` sees it: `true` = the error return -/
+  WriteFile : Str → Bytes → Int → Bool
   /-- the `--redactFieldNames` namespace prefixes -/
   eagerRedactionPaths : List Str
   /-- `UnmarshalOrdered` (the JSON reader; not translated): `none` = the error return -/
